@@ -20,6 +20,14 @@ package ratelimiter
 //@ pure penaltyNs(k int) int = ite(k <= 1, 5000000000, ite(k == 2, 10000000000, ite(k == 3, 20000000000, 30000000000)))
 //@ pred is429like(s int) = s == 429 || s == 403 || s == 408 || s == 425
 
+// Potential: the token count the bucket would show if it were refilled at time t with the
+// configured (ideal) rate. Used for the window bound: every critical section satisfies
+//   pot(new, now') + released <= pot(old, now) + idealRate*(now' - now)
+// and 0 <= pot <= capacity, so by telescoping (lemma window-step) any history releases at
+// most capacity + idealRate*T requests in a window of length T.
+//@ pure vpot(tokens float64, capacity float64, ideal float64, lastRefill time.Time, penaltyUntil time.Time, t time.Time) real = min(capacity, tokens + ideal * (real(max(0, t - max(lastRefill, penaltyUntil))) / 1000000000.0))
+//@ pure pot(tb *tokenBucket, t time.Time) real = vpot(tb.tokens, tb.capacity, tb.idealRate, tb.lastRefill, tb.penaltyUntil, t)
+
 //@ func newTokenBucket
 //@   property C13
 //@   mode real
@@ -30,15 +38,20 @@ package ratelimiter
 //@ func (*tokenBucket).refill
 //@   property C13
 //@   mode real
+//@   attr guarded tb tb.mu exempt nowFunc
 //@   requires inv(tb) && phold(tb) && clockOK(tb)
+//@   requires [locked] held(tb.mu) // C13: with concurrent waiters - the bucket is only touched under its mutex
 //@   modifies tb.tokens, tb.lastRefill, lastNow
 //@   ensures [inv] inv(tb) && phold(tb) && clockOK(tb) // C13: its token count stays within [0, capacity]
 //@   ensures [penalty-hold] inPenalty(tb) ==> tb.tokens == old(tb.tokens) // C13: no request to that host is released until the penalty has elapsed
 //@   ensures [monotone-clock] lastNow >= old(lastNow)
+//@   ensures [settled] !inPenalty(tb) ==> lastNow <= max(tb.lastRefill, tb.penaltyUntil)
+//@   ensures [potential] pot(tb, lastNow) <= old(pot(tb, lastNow)) + tb.idealRate * (real(lastNow - old(lastNow)) / 1000000000.0) // C13: over any time window of length T the rate limiter releases at most capacity + T x configured-rate requests
 
 //@ func (*tokenBucket).adjustOnFailure
 //@   property C13
 //@   mode real
+//@   attr guarded tb tb.mu exempt nowFunc
 //@   checks conv
 //@   replay adjustOnFailure
 //@   requires inv(tb) && phold(tb) && clockOK(tb)
@@ -48,13 +61,51 @@ package ratelimiter
 //@   ensures [5xx] !is429like(statusCode) && statusCode >= 500 ==> tb.refillRate <= old(tb.refillRate) && tb.penaltyUntil == old(tb.penaltyUntil) && tb.tokens == 0 // C13: 5xx responses only lower the rate
 //@   ensures [other] !is429like(statusCode) && statusCode < 500 ==> tb.refillRate == old(tb.refillRate) && tb.penaltyUntil == old(tb.penaltyUntil) && tb.tokens == old(tb.tokens) && tb.failureCount == old(tb.failureCount)
 //@   ensures [never-releases] tb.tokens <= old(tb.tokens)
+//@   ensures [potential] pot(tb, lastNow) <= old(pot(tb, lastNow)) + tb.idealRate * (real(lastNow - old(lastNow)) / 1000000000.0) // C13: over any time window of length T the rate limiter releases at most capacity + T x configured-rate requests
 
 //@ func (*tokenBucket).onSuccess
 //@   property C13
 //@   mode real
+//@   attr guarded tb tb.mu exempt nowFunc
 //@   replay onSuccess
 //@   requires inv(tb) && phold(tb) && clockOK(tb)
 //@   modifies tb.refillRate, tb.failureCount, lastNow
 //@   ensures [inv] inv(tb) && phold(tb) && clockOK(tb)
 //@   ensures [raise-only] old(tb.refillRate) <= tb.refillRate && tb.refillRate <= tb.idealRate // C13: successes only raise it back toward, never above, the configured rate
 //@   ensures [no-release] tb.tokens == old(tb.tokens) && tb.penaltyUntil == old(tb.penaltyUntil)
+//@   ensures [potential] pot(tb, lastNow) <= old(pot(tb, lastNow)) + tb.idealRate * (real(lastNow - old(lastNow)) / 1000000000.0) // C13: over any time window of length T the rate limiter releases at most capacity + T x configured-rate requests
+
+// Wait: each loop iteration is one critical section. Between iterations other goroutines
+// may run any of the bucket's methods, so the whole bucket is havocked at the loop head
+// (loop modifies tb.*) and only the facts every method preserves are kept.
+//@ func (*tokenBucket).Wait
+//@   property C13
+//@   mode real
+//@   attr guarded tb tb.mu exempt nowFunc
+//@   requires inv(tb) && phold(tb) && clockOK(tb)
+//@   modifies tb.tokens, tb.lastRefill, lastNow
+//@   loop for modifies tb.*
+//@   loop for invariant [inv] inv(tb) && phold(tb) && clockOK(tb)
+//@   loop for let itPot = pot(tb, lastNow)
+//@   loop for let itNow = lastNow
+//@   loop for let itIdeal = tb.idealRate
+//@   loop for invariant [iter-potential] pot(tb, lastNow) <= itPot + itIdeal * (real(lastNow - itNow) / 1000000000.0)
+//@   ensures [inv] inv(tb) && phold(tb) && clockOK(tb)
+//@   ensures [release-outside-penalty] !inPenalty(tb) // C13: no request to that host is released until the penalty has elapsed
+//@   ensures [potential] pot(tb, lastNow) + 1 <= itPot + itIdeal * (real(lastNow - itNow) / 1000000000.0) // C13: at most capacity + T x configured-rate requests
+
+// Telescoping step of the window bound (pure arithmetic over the per-operation contracts):
+// R = releases so far, v = potential, c0 = potential at the window start w0.
+//@ lemma window-step(R real, r real, v real, v2 real, c0 real, ideal real, w0 real, t real, t2 real)
+//@   property C13
+//@   requires R + v <= c0 + ideal*(t - w0) && v2 + r <= v + ideal*(t2 - t)
+//@   ensures [telescopes] (R + r) + v2 <= c0 + ideal*(t2 - w0)
+//@ lemma window-bound(R real, v real, c0 real, cap real, ideal real, w0 real, t real)
+//@   property C13
+//@   requires R + v <= c0 + ideal*(t - w0) && 0 <= v && c0 <= cap
+//@   ensures [bound] R <= cap + ideal*(t - w0) // C13: at most capacity + T x configured-rate
+//@ lemma pot-range(tokens float64, capacity float64, ideal float64, lr time.Time, pu time.Time, t time.Time)
+//@   property C13
+//@   mode real
+//@   requires 0 <= tokens && tokens <= capacity && ideal > 0
+//@   ensures [range] 0 <= vpot(tokens, capacity, ideal, lr, pu, t) && vpot(tokens, capacity, ideal, lr, pu, t) <= capacity
